@@ -49,6 +49,17 @@ SCHEMA_JUNK: list[tuple[str, Any]] = [
     ("const-and-enum", {"const": "x", "enum": ["y"]}),
     ("const-bad-default", {"const": "x", "default": "y"}),
     ("bad-default-int", {"type": "integer", "default": "abc"}),
+    ("default-int-inf-string", {"type": "integer", "default": "inf"}),
+    ("default-int-nan-string", {"type": "integer", "default": "nan"}),
+    ("default-int-huge-exp", {"type": "integer", "default": "1e999"}),
+    ("default-int-huge-float", {"type": "integer", "default": 1e308}),
+    ("default-number-inf-string", {"type": "number", "default": "-inf"}),
+    ("default-bool-int", {"type": "boolean", "default": 1}),
+    ("default-string-nested", {"type": "string", "default": {"a": [1]}}),
+    ("default-enum-unhashable", {"type": "string", "enum": ["a", "b"], "default": ["a"]}),
+    ("default-enum-dict", {"type": "integer", "enum": [1, 2], "default": {"k": 1}}),
+    ("default-uuid-int", {"type": "string", "format": "uuid", "default": 5}),
+    ("default-const-unhashable", {"const": "x", "default": ["x"]}),
     ("bad-default-date", {"type": "string", "format": "date", "default": "not-a-date"}),
     ("bad-default-dt", {"type": "string", "format": "date-time", "default": 3}),
     ("bad-default-uuid", {"type": "string", "format": "uuid", "default": "zz"}),
